@@ -4,6 +4,7 @@ package main
 
 import (
 	"fmt"
+	"regexp"
 	"go/token"
 	"go/types"
 	"sort"
@@ -412,7 +413,47 @@ func (x *Exec) siteAsserts(st *State, fr *Frame, site string, pos token.Pos) {
 	x.siteAssertsWith(st, fr, site, pos, nil)
 }
 
+// ghostSets performs `ghost set FIELD(obj) = value @SITE` clauses for the site reached (after the
+// site's assertions were evaluated): ghost fields are Int-valued families H$T$#FIELD.
+func (x *Exec) ghostSets(st *State, fr *Frame, site string, extra map[string]*Val) {
+	if x.FC == nil {
+		return
+	}
+	for _, cl := range x.FC.Of("ghost") {
+		if !strings.HasPrefix(cl.Text, "set ") || !strings.HasSuffix(cl.Text, "@"+site) {
+			continue
+		}
+		body := strings.TrimSpace(strings.TrimSuffix(strings.TrimPrefix(cl.Text, "set "), "@"+site))
+		parts := strings.SplitN(body, "=", 2)
+		if len(parts) != 2 {
+			unsupportedf("ghost set: expected FIELD(obj) = value @SITE")
+		}
+		lhs, err := ParseExpr(strings.TrimSpace(parts[0]))
+		if err != nil || lhs.Kind != "call" || len(lhs.Args) != 2 {
+			unsupportedf("ghost set: bad target %q", parts[0])
+		}
+		rhs, err := ParseExpr(strings.TrimSpace(parts[1]))
+		if err != nil {
+			panic(unsupported{err.Error()})
+		}
+		env := x.envAt(st, st.Frames[0])
+		for n, v := range extra {
+			env.Vars[n] = v
+		}
+		obj := x.V.eval(env, lhs.Args[1])
+		val := x.V.eval(env, rhs)
+		ns := namedStruct(pointee(obj.T))
+		if ns == nil || obj.Term == nil || val.Term == nil {
+			unsupportedf("ghost set: target must be a pointer to a struct, value a scalar")
+		}
+		key := heapKeyField(ns, "#"+lhs.Args[0].Op)
+		h := st.heapGet(key, ArrSort(SInt, SInt))
+		st.Heap[key] = Store(h, obj.Term, val.Term)
+	}
+}
+
 func (x *Exec) siteAssertsWith(st *State, fr *Frame, site string, pos token.Pos, extra map[string]*Val) {
+	defer x.ghostSets(st, fr, site, extra)
 	if x.FC == nil {
 		return
 	}
@@ -601,6 +642,22 @@ func (x *Exec) applyContract(st *State, fr *Frame, dst ssa.Value, callee *ssa.Fu
 	}
 	for _, cl := range fc.Of("ensures") {
 		st.Assume(x.V.evalBool(env2, cl.E))
+	}
+	// objects the callee guarantees to be fresh are thread-local to the caller until it shares them
+	freshRe := regexp.MustCompile(`fresh\((result[0-9]*(?:\.[A-Za-z_][A-Za-z0-9_]*)*)\)`)
+	for _, cl := range fc.Of("ensures") {
+		for _, m := range freshRe.FindAllStringSubmatch(cl.Text, -1) {
+			if e, err := ParseExpr(m[1]); err == nil {
+				func() {
+					defer func() { recover() }()
+					fv := x.V.eval(env2, e)
+					if fv.Term != nil && fv.Fields == nil {
+						st.FreshRefs[fv.Term.String()] = true
+						st.FreshList = append(st.FreshList, fv.Term)
+					}
+				}()
+			}
+		}
 	}
 	x.bindResult(fr, dst, res)
 	lbl := name
@@ -1006,6 +1063,9 @@ func (x *Exec) frameObls(st *State, items []modItem, oldHeap map[string]*Term, o
 		}
 		if cur == old {
 			continue
+		}
+		if strings.Contains(f, "$#") {
+			continue // ghost fields: governed by their monitor's invariant
 		}
 		if f == "G$alloc" || f == "G$wgmine" || strings.HasPrefix(f, "G$recv") || strings.HasPrefix(f, "G$rcv$") || strings.HasPrefix(f, "G$sen") || strings.HasPrefix(f, "G$spawn") || strings.HasPrefix(f, "G$jsondecoded") || strings.HasPrefix(f, "G$protodecoded") || strings.HasPrefix(f, "G$panicval") || strings.HasPrefix(f, "G$sret$") || strings.HasPrefix(f, "G$sarg$") || strings.HasPrefix(f, "G$cancelled") || strings.HasPrefix(f, "G$ncalls$") || strings.HasPrefix(f, "G$calls$") || strings.HasPrefix(f, "G$arg$") || strings.HasPrefix(f, "G$ret$") || strings.HasPrefix(f, "G$panicked$") || strings.HasPrefix(f, "G$visited$") || strings.HasPrefix(f, "G$spawned") {
 			continue
